@@ -14,6 +14,7 @@ from fsa.cfg import CFG, raised_class
 from fsa.consts import fold_enum
 from fsa.flow import LocalFlow, PARAM, must_pass
 from fsa.match import (
+    Unknown,
     pred_call_attr,
     pred_raise,
     cmp_of,
@@ -79,6 +80,9 @@ def r1_alphabet(R) -> None:
                 if not ok and dv is not None and isinstance(dv, ast.Call) and isinstance(dv.func, ast.Attribute) \
                         and dv.func.attr == 'get' and len(dv.args) == 2 and is_const(dv.args[0], 'status'):
                     ok = enum_value_ref(dv.args[1]) in ALPHABET
+                if not ok and dv is not None and not isinstance(dv, (ast.Constant, ast.JoinedStr, ast.Attribute)):
+                    # an element / slice of a local array, a call, arithmetic: where the codes come from is not read here
+                    raise Unknown(f'{fi.qualname}: {what}: the value `{text(dv)[:60]}` is computed (array selection, call): its status codes are not read')
                 R.check(ok, fi.qualname, f'status-value:{text(dv) if dv is not None else "?"}',
                         f'{what}: value is SolutionStatus.<member>.value',
                         f'{what}: value `{text(dv) if dv is not None else "<parameter>"}` is not `SolutionStatus.<member>.value`',
